@@ -11,10 +11,14 @@
 //          address).  A run may have 0..2 group filters and 0..2 name filters in effect (substring / strict / inverted /
 //          inverted strict; values mostly the program's own names or parts of them), set on the registry or through the
 //          runner's -g/-sg/-xg/-xsg/-n/-sn/-xn/-xsn: filtered-out tests give no testcase, the suite counts the selected tests.
+//          Decoded last (absent bytes = none of it): -v / -vv (through the runner: the composite of JUnit + console), tests run
+//          in a separate process (-p, 1 case in 32), a text printed through the output before a pass, and up to three actions of
+//          a scripted TestPlugin (pre or post action of a test: print through the result, or record a failure for the test).
 //          The registry is run 1..3 times against the SAME output object with a fresh TestResult per pass (what
 //          CommandLineTestRunner does for -rN), the order optionally reversed before a pass (groups stay consecutive; no
-//          shuffle: the statement's precondition); one case in three goes through a real CommandLineTestRunner subclass with
-//          argv "-ojunit [-k package] [-rN] [-ri] [-b]".  Every pass has to write its own complete set of files.
+//          shuffle: the statement's precondition); one case in three goes through the REAL, unmodified CommandLineTestRunner
+//          (parseArguments -> createJUnitOutput -> setPackageName) with argv "-ojunit [-k package] [-rN] [-ri] [-b] [-v|-vv] [-p]
+//          [filters]".  Every pass has to write its own complete set of files.
 // Execution: a REAL run: TestRegistry::runAllTests over UtestShell / IgnoredUtestShell subclasses whose createTest()
 //          returns the scripted Utest; the output is a plain JUnitTestOutput; files are captured through the
 //          PlatformSpecificFOpen / FPuts / FClose seams (one capture per fopen).
@@ -23,6 +27,8 @@
 #include "CppUTest/JUnitTestOutput.h"
 #include "CppUTest/CommandLineTestRunner.h"
 #include "CppUTest/TestFilter.h"
+#include "CppUTest/TestPlugin.h"
+#include "CppUTest/TestFailure.h"
 #include <expat.h>
 #include <memory>
 #include <deque>
@@ -37,7 +43,11 @@ const char* const KEY_ATTR = "C16:attribute-value-unescaped";
 
 // ---------------------------------------------------------------- model of a case
 struct Step { int kind; std::string text, file; uint32_t line; std::string op2; };   // 0 print through the result, 1 UT_PRINT_LOCATION, 2 FAIL at (file,line), 3 STRCMP_EQUAL(text, op2) at (file,line)
-struct TestM { std::string name, file; uint32_t line = 1; bool ignored = false; std::vector<Step> body, teardown; };
+struct TestM {
+    std::string name, file; uint32_t line = 1; bool ignored = false; std::vector<Step> body, teardown;
+    int pluginKind[2] = {-1, -1};      // scripted plugin, [0] pre action, [1] post action of this test: -1 nothing, 0 print through the result, 1 record a failure
+    std::string pluginText[2];
+};
 struct GroupM { std::string name; std::vector<TestM> tests; };
 struct CaseM {
     std::string package; bool runIgnored = false; std::vector<GroupM> groups;
@@ -46,6 +56,10 @@ struct CaseM {
     bool reverse[3] = {false, false, false};   // reverse the registry before pass p (runner: reverse[0] only, -b)
     struct Filter { bool strict = false, invert = false; std::string value; };
     std::vector<Filter> groupFilters, nameFilters;   // a test is selected when (no group filter or one of them matches its group) and the same for its name
+    uint32_t verbose = 0;              // 0, 1 (-v), 2 (-vv)
+    bool separateProcess = false;      // -p: every executed test runs in a forked child
+    bool hasBanner[3] = {false, false, false};
+    std::string banner[3];             // text printed through the output object before pass p (harness loop only; the runner prints its own)
 };
 bool filter_matches(const CaseM::Filter& f, const std::string& name) {
     bool m = f.strict ? name == f.value : name.find(f.value) != std::string::npos;
@@ -233,6 +247,18 @@ CaseM decode(Reader& r) {
             (which == 0 ? c.groupFilters : c.nameFilters).push_back(f);
         }
     }
+    // extras, decoded after everything else so that older inputs keep their meaning
+    { uint32_t v = r.below(8); c.verbose = v <= 5 ? 0 : v - 5; }
+    c.separateProcess = r.below(32) == 31;
+    for (uint32_t p = 0; p < c.passes; p++) if (r.below(4) == 3) { c.hasBanner[p] = true; c.banner[p] = gen_text(r, 8); }
+    uint32_t nplug = r.below(4);
+    for (uint32_t i = 0; i < nplug; i++) {
+        GroupM& g = c.groups[r.below((uint32_t)c.groups.size())];
+        TestM& t = g.tests[r.below((uint32_t)g.tests.size())];
+        uint32_t when = r.below(2);
+        t.pluginKind[when] = (int)r.below(2);
+        t.pluginText[when] = gen_text(r, 8);
+    }
     return c;
 }
 
@@ -241,11 +267,24 @@ TestSim simulate(const CaseM& c, const TestM& t) {
     TestSim s;
     s.executed = !t.ignored || c.runIgnored;
     if (!s.executed) return s;
+    auto plugin = [&](int when) {   // a plugin reports for the test itself: the failure carries the test's file and line
+        if (t.pluginKind[when] == 0) s.prints.push_back(t.pluginText[when]);
+        if (t.pluginKind[when] == 1) { FailM f; f.file = t.file; f.line = t.line; f.msg = t.pluginText[when]; s.fails.push_back(f); }
+    };
+    plugin(0);
     for (int phase = 0; phase < 2; phase++)
         for (auto& st : phase == 0 ? t.body : t.teardown) {
             if (st.kind >= 2) { FailM f; f.file = st.file; f.line = st.line; f.msg = st.text; f.natural = st.kind == 3; f.op2 = st.op2; s.fails.push_back(f); break; }
             s.prints.push_back(st.text);
         }
+    plugin(1);
+    if (c.separateProcess) {
+        // the test (and the plugin actions around it) ran in a forked child: its prints and failure texts stay there; the parent
+        // records one failure for the test when anything failed (DESIGN A.4)
+        bool failed = !s.fails.empty();
+        s.prints.clear(); s.fails.clear();
+        if (failed) { FailM f; f.file = t.file; f.line = t.line; f.msg = "Failed in separate process"; s.fails.push_back(f); }
+    }
     return s;
 }
 
@@ -302,7 +341,9 @@ PlatformSpecificFile cap_fopen(const char* name, const char* mode) {
     g_files.back()->name = name ? name : "(null)"; g_files.back()->mode = mode ? mode : "(null)";
     return g_files.back().get();
 }
+size_t g_console_bytes = 0;
 void cap_fputs(const char* s, PlatformSpecificFile f) {
+    if (f == PlatformSpecificStdOut) { g_console_bytes += strlen(s); return; }   // the console half of -v / -vv
     Cap* c = find_cap(f);
     if (c && c->open) c->data += s; else g_stray_puts++;
 }
@@ -312,23 +353,26 @@ void cap_fclose(PlatformSpecificFile f) {
 }
 void cap_flush() {}
 
-// the failure texts handed to the output (its input), in order
-std::vector<std::string> g_messages;
-struct RecordingJUnit : JUnitTestOutput {
-    void printFailure(const TestFailure& f) CPPUTEST_OVERRIDE { g_messages.push_back(f.getMessage().asCharString()); JUnitTestOutput::printFailure(f); }
-};
-
-struct Runner : CommandLineTestRunner {
-    Runner(int ac, const char* const* av, TestRegistry* reg) : CommandLineTestRunner(ac, av, reg) {}
-    TestOutput* createJUnitOutput(const SimpleString& packageName) CPPUTEST_OVERRIDE {
-        RecordingJUnit* o = new RecordingJUnit;
-        o->setPackageName(packageName);
-        return o;
+// the scripted plugin: acts before / after the test it is told to
+const TestM* model_of(const UtestShell& test) {
+    if (const Shell* a = dynamic_cast<const Shell*>(&test)) return a->t;
+    if (const IgnoredShell* b = dynamic_cast<const IgnoredShell*>(&test)) return b->t;
+    return nullptr;
+}
+struct ScriptPlugin : TestPlugin {
+    ScriptPlugin() : TestPlugin("verif-script") {}
+    void act(UtestShell& test, TestResult& result, int when) {
+        const TestM* t = model_of(test);
+        if (!t) return;
+        if (t->pluginKind[when] == 0) result.print(t->pluginText[when].c_str());
+        if (t->pluginKind[when] == 1) { TestFailure f(&test, t->pluginText[when].c_str()); result.addFailure(f); }   // as MemoryLeakWarningPlugin reports
     }
+    void preTestAction(UtestShell& test, TestResult& result) CPPUTEST_OVERRIDE { act(test, result, 0); }
+    void postTestAction(UtestShell& test, TestResult& result) CPPUTEST_OVERRIDE { act(test, result, 1); }
 };
 
 void execute(const CaseM& c) {
-    g_files.clear(); g_stray_puts = 0; g_stray_close = 0;
+    g_files.clear(); g_stray_puts = 0; g_stray_close = 0; g_console_bytes = 0;
     verif::fake_millis_value = 0;
     std::vector<std::unique_ptr<UtestShell>> shells;
     for (auto& g : c.groups)
@@ -336,9 +380,10 @@ void execute(const CaseM& c) {
             if (t.ignored) shells.emplace_back(new IgnoredShell(g.name.c_str(), &t));
             else shells.emplace_back(new Shell(g.name.c_str(), &t));
         }
-    g_messages.clear();
     TestRegistry reg;
     for (size_t i = shells.size(); i-- > 0;) reg.addTest(shells[i].get());   // addTest prepends
+    ScriptPlugin plugin;
+    reg.installPlugin(&plugin);
     if (c.viaRunner) {
         std::vector<std::string> args = {"harness", "-ojunit"};
         if (!c.package.empty()) { args.push_back("-k"); args.push_back(c.package); }
@@ -350,14 +395,20 @@ void execute(const CaseM& c) {
         if (c.passes > 1) args.push_back("-r" + std::to_string(c.passes));
         if (c.runIgnored) args.push_back("-ri");
         if (c.reverse[0]) args.push_back("-b");
+        if (c.verbose) args.push_back(c.verbose == 1 ? "-v" : "-vv");
+        if (c.separateProcess) args.push_back("-p");
         std::vector<const char*> av;
         for (auto& a : args) av.push_back(a.c_str());
-        Runner runner((int)av.size(), av.data(), &reg);
-        runner.runAllTestsMain();
+        {
+            CommandLineTestRunner runner((int)av.size(), av.data(), &reg);   // the real runner creates the real JUnitTestOutput (and the composite for -v)
+            runner.runAllTestsMain();
+        }
         UtestShell::setRethrowExceptions(false);
         return;
     }
-    RecordingJUnit out;
+    JUnitTestOutput out;
+    if (c.verbose) out.verbose(c.verbose == 1 ? TestOutput::level_verbose : TestOutput::level_veryVerbose);
+    if (c.separateProcess) reg.setRunTestsInSeperateProcess();
     if (!c.package.empty()) out.setPackageName(c.package.c_str());
     if (c.runIgnored) reg.setRunIgnored();
     std::vector<std::unique_ptr<TestFilter>> filters;
@@ -373,6 +424,7 @@ void execute(const CaseM& c) {
     }
     for (uint32_t p = 0; p < c.passes; p++) {
         if (c.reverse[p]) reg.reverseTests();
+        if (c.hasBanner[p]) out.print(c.banner[p].c_str());
         out.printTestRun(p + 1, c.passes);
         TestResult result(out);          // a fresh result per pass, the same output object
         reg.runAllTests(result);
@@ -438,7 +490,9 @@ std::string expected_file_name(const CaseM& c, const GroupM& g) {
 }
 
 std::string render(const CaseM& c) {
-    std::string o = sfmt("package=\"%s\" runIgnored=%d passes=%u%s reverse=%d,%d,%d;", P(c.package).c_str(), c.runIgnored, c.passes, c.viaRunner ? " via CommandLineTestRunner" : "", c.reverse[0], c.reverse[1], c.reverse[2]);
+    std::string o = sfmt("%s%s", c.verbose ? (c.verbose == 1 ? "-v " : "-vv ") : "", c.separateProcess ? "-p " : "");
+    for (uint32_t p = 0; p < c.passes; p++) if (c.hasBanner[p]) o += sfmt("before-pass-%u:print(\"%s\") ", p + 1, P(c.banner[p]).c_str());
+    o += sfmt("package=\"%s\" runIgnored=%d passes=%u%s reverse=%d,%d,%d;", P(c.package).c_str(), c.runIgnored, c.passes, c.viaRunner ? " via CommandLineTestRunner" : "", c.reverse[0], c.reverse[1], c.reverse[2]);
     for (int which = 0; which < 2; which++)
         for (auto& f : which == 0 ? c.groupFilters : c.nameFilters)
             o += sfmt(" %s%s%s \"%s\"", f.invert ? "-x" : "-", f.strict ? "s" : "", which == 0 ? "g" : "n", P(f.value).c_str());
@@ -446,6 +500,7 @@ std::string render(const CaseM& c) {
         o += sfmt(" GROUP \"%s\" {", P(g.name).c_str());
         for (auto& t : g.tests) {
             o += sfmt(" %s(\"%s\" @\"%s\":%u", t.ignored ? "IGNORE_TEST" : "TEST", P(t.name).c_str(), P(t.file).c_str(), t.line);
+            for (int w = 0; w < 2; w++) if (t.pluginKind[w] >= 0) o += sfmt(" plugin-%s:%s(\"%s\")", w ? "post" : "pre", t.pluginKind[w] ? "failure" : "print", P(t.pluginText[w]).c_str());
             for (int ph = 0; ph < 2; ph++)
                 for (auto& s : ph == 0 ? t.body : t.teardown)
                     o += sfmt(" %s%s(\"%s\"%s)", ph ? "teardown:" : "", s.kind == 0 ? "print" : (s.kind == 1 ? "UT_PRINT" : (s.kind == 2 ? "FAIL" : "STRCMP_EQUAL")),
@@ -508,7 +563,10 @@ int judge_file(const CaseM& c, const GroupM& g, const std::vector<TestSim>& sims
             // a failure produced by a real check: the text the framework handed to the output is the original.  It contains tabs
             // ("\n\tbut was"), which are outside the statement's alphabet: a parser turns a literal tab in an attribute into a space.
             std::string text = f.msg;
-            if (f.natural && f.index < g_messages.size()) text = g_messages[f.index];
+            if (f.natural) {
+                UtestShell any("g", "n", "f", 1);
+                text = StringEqualFailure(&any, f.file.c_str(), f.line, f.msg.c_str(), f.op2.c_str(), "").getMessage().asCharString();
+            }
             std::string want = f.file + ":" + std::to_string(f.line) + ": " + text;
             a = fl[0]->attr("message");
             std::string got = a ? *a : "";
@@ -584,6 +642,10 @@ int run_and_judge(const CaseM& c, bool useKnown, Verdict& v) {
     if (groupsWithFailure >= 2) verif::cls("failures-in-2+-groups");
 
     verif::cls(sfmt("passes:%u%s", c.passes, c.viaRunner ? "-via-CommandLineTestRunner" : "").c_str());
+    if (c.verbose) verif::cls(c.verbose == 1 ? "verbose:-v" : "verbose:-vv");
+    if (c.separateProcess) verif::cls("separate-process");
+    for (auto& g : c.groups) for (auto& t : g.tests) for (int w = 0; w < 2; w++)
+        if (t.pluginKind[w] >= 0) verif::cls(sfmt("plugin:%s-action-%s", w ? "post" : "pre", t.pluginKind[w] ? "records-failure" : "prints").c_str());
 
     execute(c);
 
@@ -614,6 +676,9 @@ int run_and_judge(const CaseM& c, bool useKnown, Verdict& v) {
             psims.emplace_back();
             for (auto& t : g.tests) { psims.back().push_back(simulate(c, t)); for (auto& f : psims.back().back().fails) f.index = failIndex++; }
         }
+        // a text printed through the output before the pass belongs to the captured output of the pass's first report
+        if (!c.viaRunner && c.hasBanner[pass] && !c.banner[pass].empty())
+            for (size_t k = 0; k < order.size(); k++) if (!deselected[k]) { psims[k][0].prints.insert(psims[k][0].prints.begin(), c.banner[pass]); verif::cls("print:before-a-pass"); break; }
         for (size_t k = 0; k < order.size(); k++) {
             const GroupM& g = order[k];
             if (deselected[k]) {
